@@ -565,23 +565,23 @@ pub fn run_seed(vseed: u64, prop: &str, idx: u64) -> u64 {
 pub fn runs_for(prop: &str, tier: Tier) -> u64 {
     let batch = cfg!(feature = "batch");
     let (q, t): (u64, u64) = match prop {
-        "C01" => (40_000, 2_000_000),
-        "C02" => (40_000, 2_000_000),
-        "C03" => (30_000, 1_500_000),
-        "C04" => (40_000, 2_000_000),
-        "C05" => (C05_EXHAUSTIVE_RUNS + 1_500, C05_EXHAUSTIVE_RUNS + 40_000),
-        "C06" => (150_000, 6_000_000),
-        "C07" => (150_000, 6_000_000),
-        "C08" => (40_000, 2_000_000),
-        "C09" => (8_192 + 150_000, 8_192 + 8_000_000),
-        "C10" => (30_000, 1_500_000),
-        "C11" => (10_752 + 4_000, 10_752 + 300_000),
-        "C12" => (260, 6_000),
-        "C13" => (30_000, 1_500_000),
-        "C16" => (60_000, 3_000_000),
-        "C17" => (6_000, 300_000),
+        "C01" => (150_000, 3_000_000),
+        "C02" => (200_000, 4_000_000),
+        "C03" => (150_000, 3_000_000),
+        "C04" => (300_000, 6_000_000),
+        "C05" => (C05_EXHAUSTIVE_RUNS + 8_000, C05_EXHAUSTIVE_RUNS + 200_000),
+        "C06" => (1_000_000, 20_000_000),
+        "C07" => (1_000_000, 20_000_000),
+        "C08" => (200_000, 4_000_000),
+        "C09" => (8_192 + 600_000, 8_192 + 20_000_000),
+        "C10" => (150_000, 3_000_000),
+        "C11" => (10_752 + 30_000, 10_752 + 1_000_000),
+        "C12" => (1_200, 20_000),
+        "C13" => (200_000, 4_000_000),
+        "C16" => (400_000, 8_000_000),
+        "C17" => (40_000, 1_000_000),
         "C19" => (if batch { 48 * 48 + 49 * 49 * 3 + 1_200 } else { 600 }, if batch { 96 * 96 + 97 * 97 * 3 + 30_000 } else { 10_000 }),
-        "C20" => (40_000, 2_000_000),
+        "C20" => (200_000, 4_000_000),
         _ => (0, 0),
     };
     let n = if tier == Tier::Quick { q } else { t };
@@ -592,7 +592,7 @@ pub fn runs_for(prop: &str, tier: Tier) -> u64 {
         match prop {
             "C01" | "C02" | "C08" | "C10" | "C20" => n / 2,
             "C03" => n / 10,
-            "C05" | "C09" | "C11" | "C17" | "C19" => n.min(if tier == Tier::Quick { 3_000 } else { 50_000 }),
+            "C05" | "C09" | "C11" | "C17" | "C19" => n.min(if tier == Tier::Quick { 12_000 } else { 200_000 }),
             "C06" | "C07" => 0,
             "C12" => n / 3,
             _ => n / 5,
@@ -709,7 +709,18 @@ pub fn run_index(prop: &str, idx: u64, vseed: u64, tier: Tier) -> RunResult {
                 cfg.oy = 0;
                 program = giant_trace_program(&mut rng, &cfg);
             } else {
-                program = gen_draw_program(&mut rng, &cfg, cfg.orient, &ProgOpts { min_ops: 1, max_ops: 30, weights: ALL_DRAW, oob: Oob::None, rect_any: false });
+                let po = ProgOpts { min_ops: 1, max_ops: 30, weights: ALL_DRAW, oob: Oob::None, rect_any: false };
+                let mut p = gen_draw_program(&mut rng, &cfg, cfg.orient, &po);
+                if rng.chance(1, 8) {
+                    // restart in the middle: new window / orientation / options, memory survives
+                    let po2 = ProgOpts { min_ops: 1, max_ops: 10, ..po.clone() };
+                    p.truncate(8);
+                    let re = gen_reinit(&mut rng, &cfg);
+                    let cfg2 = cfg.after_reinit(&re);
+                    p.push(re);
+                    p.extend(gen_draw_program(&mut rng, &cfg2, cfg2.orient, &po2));
+                }
+                program = p;
             }
             one(&mut r, ReplayCase::Display(mk_case(prop, seed, cfg, program)));
         }
@@ -779,6 +790,19 @@ pub fn run_index(prop: &str, idx: u64, vseed: u64, tier: Tier) -> RunResult {
                 for (i, &c) in cols.iter().enumerate().take(24) {
                     program.push(Op::FillSolid { rect: Rect { x: (i as u32 % lw) as i32, y: (3 + i as u32 / lw).min(lh - 1) as i32, w: 1, h: 1 }, c });
                 }
+                // a solid fill right after a stream that left the same colour at both ends of
+                // the transport's staging area must still encode like the stream
+                for k in [3u32, 4, 5, 8] {
+                    if k <= lw && lh > 8 {
+                        let x = cols[rng.below(8) as usize + 8];
+                        let y = cols[rng.below(8) as usize + 16];
+                        let mut row = vec![y; k as usize];
+                        row[0] = x;
+                        row[k as usize - 1] = x;
+                        program.push(Op::SetPixels { sx: 0, sy: 6, ex: (k - 1) as u16, ey: 6, colors: Colors::List(row) });
+                        program.push(Op::FillSolid { rect: Rect { x: 0, y: 7, w: k, h: 1 }, c: x });
+                    }
+                }
                 one(&mut r, ReplayCase::Display(mk_case(prop, seed, cfg, program)));
             }
         }
@@ -790,12 +814,10 @@ pub fn run_index(prop: &str, idx: u64, vseed: u64, tier: Tier) -> RunResult {
         "C06" | "C07" => {
             let with_faults = prop == "C07" && rng.chance(1, 2);
             let mut c = gen_xcase(&mut rng, prop, seed, false, tier == Tier::Thorough);
-            if with_faults && matches!(c.kind, XKind::Bus8 | XKind::Bus16) {
+            if with_faults {
+                // bus level and interface level: pin failures inside calls, then continued use
                 let mut rng2 = Rng::new(seed ^ 0xF00D);
                 c = gen_xcase(&mut rng2, prop, seed, true, tier == Tier::Thorough);
-                if !matches!(c.kind, XKind::Bus8 | XKind::Bus16) {
-                    c.faults.clear();
-                }
             }
             one(&mut r, ReplayCase::Xport(c));
         }
@@ -805,10 +827,18 @@ pub fn run_index(prop: &str, idx: u64, vseed: u64, tier: Tier) -> RunResult {
             let mut program = Vec::new();
             let mut orient = cfg.orient;
             let segs = 1 + rng.below(3);
+            let mut cfg_now = cfg.clone();
             for s in 0..segs {
                 if s > 0 {
-                    orient = gen_orient(&mut rng);
-                    program.push(Op::SetOrientation { o: orient });
+                    if rng.chance(1, 4) {
+                        let re = gen_reinit(&mut rng, &cfg_now);
+                        cfg_now = cfg_now.after_reinit(&re);
+                        orient = cfg_now.orient;
+                        program.push(re);
+                    } else {
+                        orient = gen_orient(&mut rng);
+                        program.push(Op::SetOrientation { o: orient });
+                    }
                 }
                 let po = match style {
                     0 => ProgOpts { min_ops: 1, max_ops: 10, weights: ALL_DRAW, oob: Oob::None, rect_any: false },
@@ -816,7 +846,7 @@ pub fn run_index(prop: &str, idx: u64, vseed: u64, tier: Tier) -> RunResult {
                     2 => ProgOpts { min_ops: 1, max_ops: 6, weights: [0, 0, 1, 0, 0, 0], oob: Oob::Negative, rect_any: false },
                     _ => ProgOpts { min_ops: 1, max_ops: 8, weights: [1, 2, 2, 4, 2, 1], oob: Oob::None, rect_any: true },
                 };
-                program.extend(gen_draw_program(&mut rng, &cfg, orient, &po));
+                program.extend(gen_draw_program(&mut rng, &cfg_now, orient, &po));
             }
             one(&mut r, ReplayCase::Display(mk_case(prop, seed, cfg, program)));
         }
@@ -968,12 +998,20 @@ pub fn run_index(prop: &str, idx: u64, vseed: u64, tier: Tier) -> RunResult {
             let mut program = Vec::new();
             let mut orient = cfg.orient;
             let sleepy = rng.chance(1, 2);
+            let mut cfg_now = cfg.clone();
             for _ in 0..n {
-                let w: [u32; 6] = if sleepy { [6, 6, 2, 1, 1, 1] } else { [2, 2, 4, 1, 1, 1] };
+                let w: [u32; 7] = if sleepy { [12, 12, 4, 2, 2, 2, 1] } else { [4, 4, 8, 2, 2, 2, 1] };
                 match rng.weighted(&w) {
                     0 => program.push(Op::Sleep),
                     1 => program.push(Op::Wake),
-                    2 => program.extend(gen_draw_program(&mut rng, &cfg, orient, &ProgOpts { min_ops: 1, max_ops: 1, weights: ALL_DRAW, oob: Oob::None, rect_any: false })),
+                    6 => {
+                        // restart: is_sleeping() must be false again, whatever it was
+                        let re = gen_reinit(&mut rng, &cfg_now);
+                        cfg_now = cfg_now.after_reinit(&re);
+                        orient = cfg_now.orient;
+                        program.push(re);
+                    }
+                    2 => program.extend(gen_draw_program(&mut rng, &cfg_now, orient, &ProgOpts { min_ops: 1, max_ops: 1, weights: ALL_DRAW, oob: Oob::None, rect_any: false })),
                     3 => {
                         orient = gen_orient(&mut rng);
                         program.push(Op::SetOrientation { o: orient });
@@ -1071,7 +1109,29 @@ pub fn run_index(prop: &str, idx: u64, vseed: u64, tier: Tier) -> RunResult {
             cfg.ox = ox;
             cfg.oy = oy;
             cfg.rst = (idx / 42) % 2 == 0;
-            one(&mut r, ReplayCase::Display(mk_case(prop, seed, cfg, Vec::new())));
+            let mut program = Vec::new();
+            if rng.chance(2, 5) {
+                // the same pattern must hold when the hardware has been used before
+                let mut cfg_now = cfg.clone();
+                for _ in 0..1 + rng.below(2) {
+                    let small = Config { w: cfg_now.w.min(24), h: cfg_now.h.min(24), ..cfg_now.clone() };
+                    let _ = small;
+                    if cfg_now.w as u32 * cfg_now.h as u32 <= 4096 {
+                        program.extend(gen_draw_program(&mut rng, &cfg_now, cfg_now.orient, &ProgOpts { min_ops: 1, max_ops: 3, weights: [3, 2, 2, 2, 2, 0], oob: Oob::None, rect_any: false }));
+                    }
+                    let re = gen_reinit(&mut rng, &cfg_now);
+                    cfg_now = cfg_now.after_reinit(&re);
+                    program.push(re);
+                }
+            }
+            let mut case = mk_case(prop, seed, cfg, program);
+            if case.config.rst && rng.chance(1, 6) {
+                // a failing reset-pin operation: init must not carry on with reset held
+                let kind = if rng.coin() { FaultKind::PinFailNoEffect } else { FaultKind::PinFailWithEffect };
+                case.faults = vec![Fault { llop: rng.below(2), kind }];
+                case.program.clear();
+            }
+            one(&mut r, ReplayCase::Display(case));
         }
         "C19" => run_c19(&mut r, prop, idx, seed, &mut rng, tier),
         "C20" => {
@@ -1161,6 +1221,7 @@ fn run_c12(r: &mut RunResult, prop: &str, idx: u64, seed: u64, rng: &mut Rng, ti
     let mut program = Vec::new();
     let mut target_idx = 0usize;
     let mut orient = cfg.orient;
+    let mut cfg_after: Option<Config> = None;
     if !target_init {
         // prefix program
         let n_pre = rng.below(3);
@@ -1179,18 +1240,34 @@ fn run_c12(r: &mut RunResult, prop: &str, idx: u64, seed: u64, rng: &mut Rng, ti
             9 => program.push(Op::Tearing { te: rng.below(3) as u8 }),
             10 => program.push(Op::Sleep),
             _ => {
-                program.insert(target_idx, Op::Sleep);
-                target_idx += 1;
-                program.push(Op::Wake);
+                if rng.coin() {
+                    program.insert(target_idx, Op::Sleep);
+                    target_idx += 1;
+                    program.push(Op::Wake);
+                } else {
+                    // a restart under faults; nothing follows a failed one (the display is consumed)
+                    let re = gen_reinit(rng, &cfg);
+                    let mut c2 = cfg.after_reinit(&re);
+                    c2.w = c2.w.min(12);
+                    c2.h = c2.h.min(12);
+                    let (fw, fh) = c2.model.fb();
+                    c2.ox = c2.ox.min(fw - c2.w);
+                    c2.oy = c2.oy.min(fh - c2.h);
+                    let re = Op::Reinit { w: c2.w, h: c2.h, ox: c2.ox, oy: c2.oy, orient: c2.orient, bgr: c2.bgr, invert: c2.invert, refresh: c2.refresh };
+                    orient = c2.orient;
+                    cfg_after = Some(c2);
+                    program.push(re);
+                }
             }
         }
     }
     // recovery: clear, then an ordinary program under the exact oracle
-    let (lw, lh) = if orient.rot % 2 == 0 { (cfg.w as u32, cfg.h as u32) } else { (cfg.h as u32, cfg.w as u32) };
-    if lw as u64 * lh as u64 <= px_budget(cfg.transport) {
+    let cfg_rec = cfg_after.clone().unwrap_or_else(|| cfg.clone());
+    let (lw, lh) = if orient.rot % 2 == 0 { (cfg_rec.w as u32, cfg_rec.h as u32) } else { (cfg_rec.h as u32, cfg_rec.w as u32) };
+    if lw as u64 * lh as u64 <= px_budget(cfg_rec.transport) {
         program.push(Op::Clear { c: gen_colour(rng) });
     }
-    program.extend(gen_draw_program(rng, &cfg, orient, &ProgOpts { min_ops: 1, max_ops: 3, weights: ALL_DRAW, oob: Oob::None, rect_any: false }));
+    program.extend(gen_draw_program(rng, &cfg_rec, orient, &ProgOpts { min_ops: 1, max_ops: 3, weights: ALL_DRAW, oob: Oob::None, rect_any: false }));
     let mut base = mk_case(prop, seed, cfg, program);
     base.mode = if target_init { "enumerate:init".into() } else { format!("enumerate:{}", target_idx) };
     let dry = exec_case(&base, &ExecOpt::default());
